@@ -278,6 +278,7 @@ func inputMain(args []string) error {
 	n := fs.Int("n", 50, "strings per terminal (chunk), pairs per terminal (keys)")
 	terms := fs.String("terms", "", "comma separated names (default all)")
 	exh := fs.Bool("exhaustive", false, "all 1- and 2-cut partitions of short strings")
+	alpha := fs.Int("alpha", 0, "chunk mode: also every string up to this length over {ESC [ O a I} under every partition (the InputModel space) on rxvt and xterm")
 	fs.Parse(args)
 	tw, err := trace.Create(*out)
 	if err != nil {
@@ -294,6 +295,9 @@ func inputMain(args []string) error {
 	switch *mode {
 	case "chunk":
 		err = inputChunk(tw, rng, names, *n, *exh, st)
+		if err == nil && *alpha > 0 {
+			err = inputAlpha(tw, *alpha, st)
+		}
 	case "keys":
 		err = inputKeys(tw, rng, names, *n, st)
 	case "mouse":
@@ -418,6 +422,48 @@ func inputChunk(tw *trace.Writer, rng *rand.Rand, names []string, n int, exh boo
 		}
 	}
 	st["histories"], st["ops"], st["distinct"], st["samples"] = strs, runs, len(distinct), samples
+	return nil
+}
+
+// inputAlpha replays the state space of spec/InputModel.tla through the real decoder: every string over
+// the model's alphabet up to maxLen, under every partition into reads.
+func inputAlpha(tw *trace.Writer, maxLen int, st map[string]interface{}) error {
+	alphabet := []byte{0x1b, '[', 'O', 'a', 'I'}
+	runs := 0
+	id := 1 << 20
+	for _, name := range []string{"rxvt", "xterm-256color"} {
+		ti := *terminfo.VerifEntry(name)
+		tw.Emit(trace.Ev{"ev": "Reset"})
+		tw.Emit(trace.Ev{"ev": "Config", "term": name, "mode": "chunk"})
+		var rec func(prefix []byte)
+		rec = func(prefix []byte) {
+			if len(prefix) > 0 {
+				id++
+				b := append([]byte{}, prefix...)
+				for mask := 0; mask < 1<<uint(len(b)-1); mask++ {
+					var cuts []int
+					for c := 1; c < len(b); c++ {
+						if mask&(1<<uint(c-1)) != 0 {
+							cuts = append(cuts, c)
+						}
+					}
+					r := decode(ti, "UTF-8", 80, 24, split(b, cuts), nil)
+					e := runEvent("Run", id, b, cuts, r)
+					e["tokens"] = 0
+					tw.Emit(e)
+					runs++
+				}
+			}
+			if len(prefix) == maxLen {
+				return
+			}
+			for _, c := range alphabet {
+				rec(append(append([]byte{}, prefix...), c))
+			}
+		}
+		rec(nil)
+	}
+	st["model_space_runs"] = runs
 	return nil
 }
 
